@@ -293,6 +293,40 @@ def cli_case(case_seed, res):
         res.fail("disagree", case, {"op": "cli_keys", "why": "honest, correctly signed, unexpired chain rejected at the command line", "status": st})
 
 
+def surrogate_case(case_seed, res):
+    """A single-leaf edit that a lossy encoding of the signed bytes would not see: one non-ASCII character of the signed
+    layout (readme, a rule pattern, a step name) replaced by the lone surrogates standing for its UTF-8 bytes. The layout
+    must not be accepted (on the pinned tree it cannot even be loaded). Oracle only: the model's strings are sequences of
+    Unicode scalar values and cannot hold a lone surrogate."""
+    import random
+    rng = random.Random(case_seed)
+    root = scen.new_root()
+    try:
+        ch = scen.gen_chain(rng, root, n_steps=1, n_insp=0, thresholds=(1,), max_funcs=1, fmt_mode="mixed")
+        ch.readme = rng.choice(["Mise \u00e0 jour de la cha\u00eene", "\u65e5\u672c\u8a9e", "na\u00efve \U0001F600"])
+        ch.steps[0]["rules"] = ([["ALLOW", "*"]], [["DISALLOW", "*.cl\u00e9"], ["ALLOW", "*"]])
+        scn = scen.build(ch, root, rng)
+        honest = scn.run_impl(root=root)
+        e = scen.surrogate_edit(scn.layout, rng)
+        if e is None:
+            return
+        scn.layout = e[0]
+        i = scn.run_impl(root=root)
+    finally:
+        scen.drop_root(root)
+    acc_h = honest.get("load") == "ok" and "ok" in honest["result"]
+    acc = i.get("load") == "ok" and "ok" in i["result"]
+    case = {"op": "surrogate_edit", "case_seed": case_seed, "layout_fmt": ch.layout_fmt, "edit": e[1]}
+    res.case({"family": "surrogate_edit", "layout_fmt": ch.layout_fmt, "edit_path": e[1]["path"], "impl": short(i)}, True, acc_h and not acc)
+    res.count("family_surrogate_edit")
+    if not acc_h:
+        res.fail("disagree", case, {"op": "verify", "why": "honest, correctly signed, unexpired layout with non-ASCII content rejected", "impl": short(honest)})
+    if acc:
+        res.fail("oracle", case, {"why": "verification succeeded although a string of the layout was edited after signing (a character replaced by "
+                                         "the lone surrogates of its UTF-8 bytes): the content evaluated is not the content that was signed",
+                                  "impl": short(i)})
+
+
 FAMILIES = ["keys", "expiry", "leaf", "leaf", "parse_equal", "sig", "honest"]
 
 
@@ -306,6 +340,8 @@ def shard(seed, idx, n, tier):
         in_memory_case(rng, res)
     for _ in range(max(2, n // 12)):
         cli_case(rng.randrange(10**9), res)
+    for _ in range(max(2, n // 12)):
+        surrogate_case(rng.randrange(10**9), res)
     return res
 
 
@@ -380,6 +416,10 @@ def rebuild(case):
 def replay(case):
     if case.get("op") == "expiry":
         return {"model": core.driver().call(case)}
+    if case.get("op") == "surrogate_edit":
+        res = core.Result()
+        surrogate_case(case["case_seed"], res)
+        return {"case": case, "samples": res.samples, "failures_on_replay": res.failures}
     if case.get("op") == "cli_keys":
         res = core.Result()
         cli_case(case["case_seed"], res)
